@@ -102,5 +102,33 @@ def prec_queries(tier):
         PQ('prec/gev/%s' % nm, 'h_gev', {'K': 1, 'ITYPE': t}, {EVL: 'fn_evaluate'},
            {'getValue': 3, 'vf_buf.*': 2, 'Dispose|~Array|Array|operator\\+=': 3, '_ZN6Qentem11QExpressionD2Ev': 2}, {'~QExpression': 2, '.*Array.*': 2})
     return qs
+TCN = '_ZN6Qentem12TemplateCoreIc8SymValueIcE11FixedStreamIcLj8EEE'
+PVAL = TCN + '10parseValueERNS_5ArrayINS_11QExpressionEEENS7_10QOperationESA_PKcjjPKNS_4Tags7LoopTagE'
+PEXP = TCN + '16parseExpressionsEPKcjjPKNS_4Tags7LoopTagE'
+STN = '_ZN6Qentem5Digit14stringToNumberIcEENS_11QNumberTypeERNS_9QNumber64EPKT_Rjj'
+KF_OOB = 'C04-getop-oob'
+def pq(name, entry, defs, kf_excl=(), kf_only=None, **kw):
+    defs = dict(defs)
+    if MANUAL_KF:
+        for k in kf_excl: defs['KF_EXCL_' + k.replace('-', '_')] = 1
+        if kf_only: defs['KF_ONLY_' + kf_only.replace('-', '_')] = 1
+        return Query(name, 'C04_parse.cpp', entry, defs, mem_gb=8, **kw)
+    return Query(name, 'C04_parse.cpp', entry, defs, mem_gb=8, kf_excl=kf_excl, kf_only=kf_only, **kw)
+def parse_queries(tier):
+    qs = []
+    N = 4 if tier == 'quick' else 6
+    for l in range(1, N + 1):
+        b = {'vf_buf.*': l + 1, 'getOperation|isExpression|ref_next|ref_binary': l + 1, 'h_driver|parseExpressions': l + 2, 'h_value|TrimLeft|TrimRight|parseValue': l + 1,
+             'Dispose|~Array|Array|operator\\+=|Insert|.*QExpression.*|fn_.*': 3, 'vf_mem.*': 40}
+        d = {'L': l}
+        qs.append(pq('parse/getop/L%d' % l, 'h_getop', d, kf_excl=[KF_OOB], bounds=b, cflags=PRIV, timeout=600))
+        qs.append(pq('parse/isexpr/L%d' % l, 'h_isexpr', d, bounds=b, cflags=PRIV, timeout=600))
+        qs.append(pq('parse/driver/L%d' % l, 'h_driver', d, kf_excl=[KF_OOB], bounds=b, cflags=PRIV + ['-fno-inline'], stubs={PVAL: 'fn_parse_value'}, replay='none', timeout=900))
+    qs.append(pq('parse/getop/kf-oob', 'h_getop', {'L': 2}, kf_only=KF_OOB, bounds={'vf_buf.*': 3, 'getOperation|isExpression|ref_next|ref_binary': 3}, cflags=PRIV, timeout=300))
+    for l in ([2, 4, 8] if tier == 'quick' else [1, 2, 3, 4, 5, 6, 8, 9]):
+        b = {'vf_buf.*': l + 1, 'h_value|TrimLeft|TrimRight|parseValue': l + 1, 'Dispose|~Array|Array|operator\\+=|Insert|.*QExpression.*|fn_.*|Copy': 3, 'vf_mem.*': 40}
+        qs.append(pq('parse/value/L%d' % l, 'h_value', {'L': l}, bounds=b, cflags=PRIV + ['-fno-inline'], stubs={PEXP: 'fn_parse_expressions', STN: 'fn_strtonum'},
+                     replay='none', rec_bounds={'.*': 3}, timeout=900))
+    return qs
 def queries(tier):
-    return kernel_queries(tier) + prec_queries(tier)
+    return kernel_queries(tier) + prec_queries(tier) + parse_queries(tier)
